@@ -541,6 +541,39 @@ fn one_case(rep: &mut Report, rng: &mut Rng, info: &Value, kind: usize, replay_t
             Err(p) => rep.violation(format!("C03|{kname}|precompute panics|{}", p.site()), p.text, || replay(json!(null))),
         }
     }
+    // precompute, edit a non-malleable field in place (metadata stays attached), precompute
+    // again (same or another chain id): the cached id must be the id of the new content
+    {
+        let ls: Vec<Lens> = lenses(&tx0).into_iter().filter(|l| !l.malleable).collect();
+        if !ls.is_empty() {
+            let l = &ls[rng.usize_below(ls.len())];
+            let mut t = tx0.clone();
+            let cid2 = if rng.bool() { cid } else { ChainId::new(chain ^ (1 << rng.below(64))) };
+            let mut lrng = Rng::derive(rng.u64(), 1, 1);
+            let r = guarded(|| {
+                t.precompute(&cid)?;
+                apply(&mut t, l, &mut lrng);
+                t.precompute(&cid2)?;
+                Ok::<_, fuel_tx::ValidityError>((t.cached_id(), fresh(&t).id(&cid2)))
+            });
+            match r {
+                Ok(Ok((cached, want))) => {
+                    rep.eval();
+                    rep.count("reprecompute_checked");
+                    if cached != Some(want) {
+                        let shape: String = l.name.chars().filter(|c| !c.is_ascii_digit()).collect();
+                        rep.violation(
+                            format!("C03|{kname}|cached id after edit + second precompute != fresh id"),
+                            format!("lens {shape}, same chain id: {}; cached {cached:?} fresh {want}", cid2 == cid),
+                            || replay(json!({"reprecompute_lens": l.name})),
+                        );
+                    }
+                }
+                Ok(Err(_)) => rep.count("reprecompute_error"),
+                Err(p) => rep.violation(format!("C03|{kname}|precompute panics|{}", p.site()), p.text, || replay(json!(null))),
+            }
+        }
+    }
     // chain id lens
     {
         let other = ChainId::new(chain ^ (1 << rng.below(64)));
